@@ -123,6 +123,7 @@ func init() {
 		if os.Getenv("C05_ONLY") == "Rw" {
 			c05RegisterRw(c)
 			c05RegisterRs(c)
+		plLeg(c, 250, 6000) // leg Pl: the whole reducer as one Lean function (pipeline.go)
 			return
 		}
 		g := &engGen{allowRTL: true, perPat: 8, maxLen: 10, biasRewrite: true}
@@ -139,5 +140,6 @@ func init() {
 		c05RegisterCert(c)
 		c05RegisterRw(c)
 		c05RegisterRs(c)
+		plLeg(c, 250, 6000) // leg Pl: the whole reducer as one Lean function (pipeline.go)
 	})
 }
